@@ -295,7 +295,7 @@ impl Prop for C08 {
                 // bytewise: changing byte position 7 of every data shard changes only byte position 7 of the parity
                 let mut a2 = a.clone();
                 for s in a2.iter_mut() {
-                    s[7] = s[7].wrapping_add(1 + s[8]);
+                    s[7] = s[7].wrapping_add(1).wrapping_add(s[8] | 1);
                 }
                 let ea2 = encode_real(&a2).unwrap();
                 let bytewise = ea.iter().zip(ea2.iter()).all(|(p, q)| p.iter().zip(q.iter()).enumerate().all(|(i, (u, v))| i == 7 || u == v));
